@@ -40,9 +40,9 @@ CHECKS['C16'] = {
     'technique': TECH,
 }
 CHECKS['C07'] = {
-    'text': 'Verus proves on the real text: Capability::merge errs iff the ids differ (self unchanged), otherwise the result is Write iff either side was, a Write capability is never replaced, and the returned flag is exact; secret_key is Ok iff Write; from_raw(raw(c)) == c and from_raw errs exactly on unknown kinds; Store::import_namespace writes exactly merge(existing, imported) into the row of the named document and leaves every other row and table unchanged (also on every error exit); load_replica_info returns the stored capability. Lemmas over these contracts: over any sequence of imports a stored Write row never changes.',
+    'text': 'Verus proves on the real text: Capability::merge errs iff the ids differ (self unchanged), otherwise the result is Write iff either side was, a Write capability is never replaced, and the returned flag is exact; secret_key is Ok iff Write; from_raw(raw(c)) == c and from_raw errs exactly on unknown kinds; Store::import_namespace writes exactly merge(existing, imported) into the row of the named document and leaves every other row and table unchanged (also on every error exit); load_replica_info returns the stored capability. Lemmas over these contracts: over any sequence of imports a stored Write row never changes. The ImportNamespace arm of the store actor (lifted closure, U-actor-import): an upgrade reaches the open replica of that document (its capability becomes the merge = Write) and changes nothing else of it (subscribers, handles, sync flag), any other outcome leaves every open replica unchanged.',
     'design_ref': 'DESIGN.md section 5, C07',
-    'note': 'Trusted: NamespaceSecret (opaque, bytes round trip), num_enum conversions, A-redb, R4. The actor arm propagating an upgrade to open replicas is not covered.',
+    'note': 'Trusted: NamespaceSecret (opaque, bytes round trip), num_enum conversions, A-redb, R4. send_reply_with and the other actor arms are not under contract; HashMap entry API shell.',
     'technique': TECH,
 }
 CHECKS['C09'] = {
